@@ -314,7 +314,7 @@ func progressSuite() hlib.Suite {
 func suites(tier string) []hlib.Suite {
 	d := 7
 	if tier != "quick" {
-		d = 8
+		d = 9
 	}
 	return []hlib.Suite{aggregationSuite(d), aggregationLarge(d - 2), measurementSuite(), progressSuite()}
 }
